@@ -117,7 +117,9 @@ def mk_incremental_queried(spec: dict, order, queries, case_sensitive: bool = Tr
     queries(c)
     for i in order:
         r = recs[i]
-        c.add_record(mk_bare_record(r["prefix"], r["uri_prefix"], r.get("pattern")))
+        # the brand-new pair arrives with the same flag as the merges (callers guarantee that no two different records are
+        # equal up to case, so the flag changes nothing about what is denoted)
+        c.add_record(mk_bare_record(r["prefix"], r["uri_prefix"], r.get("pattern")), **({} if case_sensitive else {"case_sensitive": False}))
         queries(c)
         # with repeat > 1 every string arrives several times through the merge path (the later arrivals bring nothing new and
         # must change nothing - in particular they must not be registered twice)
@@ -311,6 +313,9 @@ def mk_remerged(spec: dict) -> Converter | None:
         for syn in r["uri_prefix_synonyms"][-1:]:
             c.add_record(mk_bare_record(r["prefix"], syn), merge=True, case_sensitive=False)
         c.add_record(mk_record(r), merge=True, case_sensitive=False)
+        # a record spelt with secondary names only (linked to its owner through synonym entries alone)
+        if r["prefix_synonyms"] and r["uri_prefix_synonyms"]:
+            c.add_record(mk_bare_record(r["prefix_synonyms"][-1], r["uri_prefix_synonyms"][0]), merge=True, case_sensitive=False)
     return c
 
 
